@@ -25,7 +25,8 @@ rc, out = run(f"git -C /repo worktree add -q {wt} HEAD")
 res = {"seed": name, "properties": props, "demo_package_dir": sub, "demo_tests": tests}
 try:
     shutil.copy(os.path.join(seed, "demo_test.go"), os.path.join(wt, sub, "zz_seed_demo_test.go"))
-    gocmd = f"go test -vet=off -count=1 -timeout 300s -run '^({tests})$' ."
+    race = "-race " if "C17" in props else ""
+    gocmd = f"go test {race}-vet=off -count=1 -timeout 300s -run '^({tests})$' ."
     rc0, out0 = run(gocmd, cwd=os.path.join(wt, sub))
     res["demo_passes_without_change"] = rc0 == 0
     rc, out = run(f"git apply {seed}/patch.diff", cwd=wt)
@@ -61,6 +62,8 @@ try:
 finally:
     run("git -C /repo checkout -- .")
     assert run("git -C /repo status --porcelain")[1].strip() == ""
+    # evidence and replay files written by the seeded runs do not describe the real tree
+    run("git -C /verif checkout -- evidence; git -C /verif clean -fdq replays")
 fcntl.flock(lockf, fcntl.LOCK_UN)
 json.dump(res, open(os.path.join(seed, "eval.json"), "w"), indent=1)
 print(json.dumps({k: v for k, v in res.items() if k != "demo_output_with_change"}, indent=1))
